@@ -362,3 +362,61 @@ SET_DR = REG.add(Contract(
     props=("C07",),
     note="networkx lowest_common_ancestor and get_all_predecessors are assumed callees; products / quotients of two symbolic reals are "
          "uninterpreted in this proof (only congruence and the stated cancellation law are used)"))
+
+
+# ---- get_all_predecessors proved (it was an assumed callee of set_distance_restraint) -------------------------------------------------
+from pyvc.types import TInt as _TI      # noqa: E402
+REG_PRE = Registry()
+DEPTH = z3.Function("tree_depth", _TN.sort, z3.IntSort())      # ghost: depth of a node in the search tree
+
+
+def edge(tree, p, c):
+    e = tree.fields["edges"]
+    return z3.Exists([j_], z3.And(0 <= j_, j_ < e.n, e.comps[0][j_] == p, e.comps[1][j_] == c))
+
+
+def tree_wellfounded(tree):
+    """search-tree fact (networkx dfs_tree / bfs_tree): an edge goes from a node to a deeper one"""
+    e = tree.fields["edges"]
+    return z3.ForAll([j_], z3.Implies(z3.And(0 <= j_, j_ < e.n), DEPTH(e.comps[0][j_]) < DEPTH(e.comps[1][j_])))
+
+
+REG_PRE.add(Contract("searchtree:predecessors", params=dict(self=_TREE, n=_TN), result=_TL(_TN),
+                     ensures={"the nodes with an edge to n": "all_parents(self, n, result)"},
+                     spec_fns=dict(all_parents=lambda t, n, L: z3.ForAll([i_], z3.Implies(z3.And(0 <= i_, i_ < L.n), edge(t, _sg(L, i_), n)))),
+                     trusted=True, note="networkx DiGraph.predecessors: every listed node has an edge to n (an empty list when n has no predecessor)"))
+
+
+def chain_up(L, graph, node, upto=None):
+    """L[0] is the node and every later entry is a predecessor of the one before it; entries are pairwise different"""
+    n = L.n if upto is None else upto
+    return z3.And(L.n >= 1, _sg(L, z3.IntVal(0)) == node,
+                  z3.ForAll([i_], z3.Implies(z3.And(0 <= i_, i_ + 1 < L.n), z3.And(edge(graph, _sg(L, i_ + 1), _sg(L, i_)), DEPTH(_sg(L, i_ + 1)) < DEPTH(_sg(L, i_))))))
+
+
+def path_down(result, graph, node, start_node):
+    """the result read from the start node down to the node: consecutive entries are joined by a tree edge, no residue occurs twice"""
+    return z3.And(result.n >= 2, _sg(result, z3.IntVal(0)) == start_node, _sg(result, result.n - 1) == node,
+                  z3.ForAll([i_], z3.Implies(z3.And(0 <= i_, i_ + 1 < result.n), edge(graph, _sg(result, i_), _sg(result, i_ + 1)))),
+                  z3.ForAll([i_, j_], z3.Implies(z3.And(0 <= i_, i_ < j_, j_ < result.n), DEPTH(_sg(result, i_)) < DEPTH(_sg(result, j_)))))
+
+
+ALL_PRED = REG_PRE.add(Contract(
+    "polyply.src.graph_utils:get_all_predecessors", params=dict(graph=_TREE, node=_TN, start_node=_TN), result=_TL(_TN),
+    axioms={"search-tree fact: an edge of the tree goes from a node to a deeper one (ghost tree_depth)": "tree_wellfounded(graph)"},
+    raises_when={"IndexError": "True"},
+    ensures={"the tree path from start_node down to node: consecutive entries joined by a tree edge, strictly deeper from entry to entry (so no residue occurs twice)":
+             "path_down(result, graph, node, start_node)",
+             "in the form set_distance_restraint uses: from start_node to node, each residue once, every entry on the tree": "path_ok(result, graph, node, start_node)"},
+    locals={"predecessors": _TL(_TN)},
+    loops={0: Loop({"chain": "chain_up(predecessors, graph, node)", "monotone": "deeper(predecessors)"})},
+    spec_fns=dict(tree_wellfounded=tree_wellfounded, chain_up=chain_up, path_down=path_down, path_ok=path_ok,
+                  deeper=lambda L: z3.ForAll([i_, j_], z3.Implies(z3.And(0 <= i_, i_ < j_, j_ < L.n), DEPTH(_sg(L, j_)) < DEPTH(_sg(L, i_))))),
+    props=("C07",),
+    note="partial correctness (the walk ends when it reaches start_node; IndexError when a node without predecessor is reached first); "
+         "networkx DiGraph.predecessors through an assumed contract on the edge-list view of the search tree"))
+
+# set_distance_restraint now uses the PROVED contract of get_all_predecessors
+REG[ALL_PRED.target] = ALL_PRED
+REG.variants[ALL_PRED.target] = [ALL_PRED]
+REG.add(REG_PRE["searchtree:predecessors"])
